@@ -9,7 +9,7 @@ import threading
 import types
 
 from ..core import Outcome, Agg, case_hash, jsonable, explore, merge, VERIF_DIR
-from ..sched import CoopLock, Run, explore_stateful, Abort
+from ..sched import CoopLock, CoopRLock, Run, explore_stateful, Abort
 from .. import target  # noqa: F401
 from register_crypto_plugin.ecdsa import _rwlock as RW
 from . import c20curve
@@ -37,7 +37,8 @@ ASSUMPTIONS = [
 
 def new_rwlock():
     saved = RW.threading
-    RW.threading = types.SimpleNamespace(Lock=CoopLock)
+    # every lock type the module could create is replaced by a cooperative one (a real lock would escape the scheduler)
+    RW.threading = types.SimpleNamespace(Lock=CoopLock, RLock=CoopRLock, get_ident=threading.get_ident, current_thread=threading.current_thread)
     try:
         lock = RW.RWLock()
     finally:
@@ -94,7 +95,7 @@ def rw_bodies(config, rounds):
 def rw_state(run, cx):
     items = walk(cx.lock)
     locks = [v for _, v in items if isinstance(v, CoopLock)]
-    vals = tuple((p, v.locked_flag) if isinstance(v, CoopLock) else (p, v) for p, v in items)
+    vals = tuple((p, v.state()) if isinstance(v, CoopLock) else (p, v) for p, v in items)
     th = []
     for w in run.workers:
         op = w.pending
